@@ -181,7 +181,8 @@ long long strtoll(const char *nptr, char **endptr, int base)
 			break;
 		any = 1;
 		if (!over) {
-			if (acc > (lim - (unsigned)d) / (unsigned)base)
+			/* acc * base + d > lim, written without a symbolic division */
+			if (acc > lim / (unsigned)base || (acc == lim / (unsigned)base && (unsigned)d > lim % (unsigned)base))
 				over = 1;
 			else
 				acc = acc * (unsigned)base + (unsigned)d;
